@@ -107,6 +107,21 @@ func (r *Report) finish(w *World, o *Options, start time.Time) int {
 	for _, ob := range all {
 		names = append(names, ob.Name+" ["+ob.Status+"]")
 	}
+	// slowest obligations (solver time), for stability tracking
+	sorted := append([]*Obligation{}, all...)
+	sort.Slice(sorted, func(i, j int) bool { return sorted[i].Millis > sorted[j].Millis })
+	var slowest []string
+	for i, ob := range sorted {
+		if i >= 8 {
+			break
+		}
+		slowest = append(slowest, fmt.Sprintf("%s %dms %s", ob.Name, ob.Millis, ob.Backend))
+	}
+	if o.verbose {
+		for _, sl := range slowest {
+			fmt.Println("slow:", sl)
+		}
+	}
 	trusted := trustedBase(w, o)
 	kinds := map[string]int{}
 	for _, ob := range all {
@@ -126,6 +141,7 @@ func (r *Report) finish(w *World, o *Options, start time.Time) int {
 		"ground_obligations":       len(r.grounds),
 		"lemma_obligations":        len(r.lemmas),
 		"obligation_names":         names,
+		"slowest":                  slowest,
 		"samples":                  samples,
 		"left_subset":              subsetFail,
 		"known_findings":           knownHit,
